@@ -7,6 +7,12 @@ use std::time::Instant;
 
 pub const VERIF_ROOT: &str = "/verif";
 
+/// Where evidence and replay files go: /verif, unless MWMC_OUT_ROOT redirects them (used by tools/seed_run_wt.sh so
+/// that a run against a scratch copy of the repository does not overwrite the evidence of the real tree).
+pub fn out_root() -> String {
+    std::env::var("MWMC_OUT_ROOT").unwrap_or_else(|_| VERIF_ROOT.to_string())
+}
+
 #[derive(Clone, Copy, PartialEq, Eq, Debug)]
 pub enum Tier {
     Quick,
@@ -213,7 +219,7 @@ pub fn finish(ctx: &Ctx, mut rep: Report) -> i32 {
             );
         }
     }
-    let dir = PathBuf::from(format!("{}/replays/{}", VERIF_ROOT, ctx.prop));
+    let dir = PathBuf::from(format!("{}/replays/{}", out_root(), ctx.prop));
     // replay files describe this run only
     let _ = std::fs::remove_dir_all(&dir);
     let mut printed = 0usize;
@@ -293,7 +299,7 @@ pub fn finish(ctx: &Ctx, mut rep: Report) -> i32 {
         "wall_s": ctx.start.elapsed().as_secs_f64(),
         "violations": fresh.len(),
     });
-    let evdir = format!("{}/evidence", VERIF_ROOT);
+    let evdir = format!("{}/evidence", out_root());
     let _ = std::fs::create_dir_all(&evdir);
     let evpath = format!("{}/{}.json", evdir, ctx.prop);
     let mut f = std::fs::File::create(&evpath).expect("cannot write evidence");
@@ -552,13 +558,42 @@ pub fn start_watchdog(prop: &'static str, limit_s: u64) {
             Some(b) => b.lock().unwrap().clone(),
             None => continue,
         };
+        // a case whose evaluation allocates without bound would take the process down before the time limit:
+        // report the longest-running case once the resident set passes 24 GiB (the address space is capped at 40)
+        let rss_gib = std::fs::read_to_string("/proc/self/statm")
+            .ok()
+            .and_then(|t| t.split_whitespace().nth(1).and_then(|p| p.parse::<u64>().ok()))
+            .map(|pages| pages * 4096 >> 30)
+            .unwrap_or(0);
+        if rss_gib >= 24 {
+            let mut oldest: Option<(u64, String)> = None;
+            for b in &beats {
+                let g = b.lock().unwrap();
+                if !g.1.is_empty() && oldest.as_ref().map(|o| g.0.elapsed().as_millis() as u64 > o.0).unwrap_or(true) {
+                    oldest = Some((g.0.elapsed().as_millis() as u64, g.1.clone()));
+                }
+            }
+            if let Some((ms, case)) = oldest {
+                let dir = format!("{}/replays/{}", out_root(), prop);
+                let _ = std::fs::create_dir_all(&dir);
+                let path = format!("{}/memory-{:08x}.json", dir, fnv(&case) as u32);
+                let body = json!({"property": prop, "key": format!("memory:{}", case), "class": "memory-exhaustion", "observed": "memory-exhaustion",
+                    "detail": {"session": [case], "note": format!("the process reached {} GiB resident while this case (the longest-running one) had been evaluating for {} ms", rss_gib, ms)}});
+                let _ = std::fs::write(&path, serde_json::to_string_pretty(&body).unwrap());
+                println!("VIOLATION property={} replay={}", prop, path);
+                println!("  key=memory class=memory-exhaustion observed=memory-exhaustion (resident set {} GiB)", rss_gib);
+                use std::io::Write;
+                let _ = std::io::stdout().flush();
+                std::process::exit(1);
+            }
+        }
         for b in beats {
             let (t, case) = {
                 let g = b.lock().unwrap();
                 (g.0, g.1.clone())
             };
             if !case.is_empty() && t.elapsed().as_secs() >= limit_s {
-                let dir = format!("{}/replays/{}", VERIF_ROOT, prop);
+                let dir = format!("{}/replays/{}", out_root(), prop);
                 let _ = std::fs::create_dir_all(&dir);
                 let path = format!("{}/hang-{:08x}.json", dir, fnv(&case) as u32);
                 let body = json!({"property": prop, "key": format!("hang:{}", case), "class": "hang", "observed": "hang",
